@@ -785,12 +785,57 @@ end
     subshell. -/
 def inlineSub : Nat → List Stmt → List Stmt
   | 0, stmts => stmts
-  | f+1, [.mk false false (.sub inner)] => inlineSub f inner
-  | _, stmts => stmts
+  | f+1, stmts =>
+    match stmts with
+    | [.mk false false (.sub inner)] => inlineSub f inner
+    | _ => stmts
 
 /-- `$( stmts )`: the captured output and the status. -/
 def cmdSubst (stmts : List Stmt) (s : ShState) : Bytes × Nat :=
   let r := runStmts stmts { s with out := [] }
   (r.1.out, r.1.status)
+
+/-! ### Concrete primitives, used for the witnesses and non-vacuity examples in Props/C04.lean.
+  (A decimal `atoi` without base prefixes, `strconv.FormatInt(_, 10)`, `+ - *` and `=`/`+=`.) -/
+
+def atoiNat (s : Bytes) : Nat := s.foldl (fun acc d => acc * 10 + (d.toNat - 48)) 0
+
+def atoiDec (s : Bytes) : Int :=
+  match s with
+  | [] => 0
+  | b :: rest =>
+    if b = 45 then (if rest.all isDigit && !rest.isEmpty then - (atoiNat rest : Int) else 0)
+    else if s.all isDigit then (atoiNat s : Int) else 0
+
+def fmtNatAux : Nat → Nat → Bytes → Bytes
+  | 0, _, acc => acc
+  | f+1, n, acc =>
+    let acc' := UInt8.ofNat (48 + n % 10) :: acc
+    if n < 10 then acc' else fmtNatAux f (n / 10) acc'
+
+def fmtNat (n : Nat) : Bytes := fmtNatAux (n + 1) n []
+
+def fmtInt (k : Int) : Bytes := if k < 0 then 45 :: fmtNat k.natAbs else fmtNat k.natAbs
+
+def opAdd : Nat := 0
+def opSub : Nat := 1
+def opMul : Nat := 2
+def opAssgn : Nat := 10
+def opAddAssgn : Nat := 11
+def opInc : Nat := 20
+def opDec : Nat := 21
+def opNeg : Nat := 30
+
+def demoPrims : Prims where
+  atoi := atoiDec
+  fmt := fmtInt
+  bin := fun op x y => if op = opAdd then some (x + y) else if op = opSub then some (x - y)
+    else if op = opMul then some (x * y) else none
+  un := fun op x => if op = opNeg then some (-x) else none
+  assignOp := fun op => if op = opAssgn then some (fun _ a => some a)
+    else if op = opAddAssgn then some (fun o a => some (o + a)) else none
+  incDec := fun op => if op = opInc then some 1 else if op = opDec then some (-1) else none
+  isAnd := fun _ => false
+  isOr := fun _ => false
 
 end ShVerif.C04
